@@ -602,8 +602,12 @@ func ResolveSpecSource(ctx context.Context, specSource interface{}) (*crew.SpecS
 			resp.Body.Close()
 		}
 
+		if err != nil {
+			return nil, nil, err
+		}
+
 		var spec core.Spec
-		if body[0] == '{' {
+		if 0 < len(body) && body[0] == '{' {
 			err = json.Unmarshal(body, &spec)
 		} else {
 			err = yaml.Unmarshal(body, &spec)
